@@ -116,6 +116,31 @@ func c31AbandonedCommit(net *ec.Net, from map[int]int64) bool {
 	return true
 }
 
+// c31StaleTime reports whether the lack of progress is explained by the
+// block-time finding: every honest node that is not behind builds, from the
+// commit it holds, a block whose weighted-median time is not after the last
+// block time (a byzantine precommit with an old timestamp is the lower median
+// of a minimal commit when voting powers are tiny).
+func c31StaleTime(net *ec.Net) bool {
+	var maxH int64
+	for _, i := range net.Honest() {
+		if h := net.Nodes[i].CS.GetRoundState().Height; h > maxH {
+			maxH = h
+		}
+	}
+	n := 0
+	for _, i := range net.Honest() {
+		if net.Nodes[i].CS.GetRoundState().Height != maxH {
+			continue
+		}
+		if !net.StaleBlockTime(i) {
+			return false
+		}
+		n++
+	}
+	return n > 0
+}
+
 // c31Apply applies schedule actions to the network, checking safety after each.
 func c31Apply(ctx *vk.Ctx, net *ec.Net, byzMask []bool, actions []c31Action, equiv *int) error {
 	honest := net.Honest()
@@ -225,7 +250,9 @@ func c31Apply(ctx *vk.Ctx, net *ec.Net, byzMask []bool, actions []c31Action, equ
 			if (a.B>>4)%4 == 0 && round > 0 {
 				round--
 			}
-			msg := net.ByzVote(v, rs.Height, round, typ, bid)
+			oldTime := (a.B>>6)%8 == 0 // rarely: a timestamp far in the past (see known finding byzantine-old-timestamp-halts-chain)
+			ctx.ClassIf(oldTime, "byz-vote-old-timestamp")
+			msg := net.ByzVoteAt(v, rs.Height, round, typ, bid, oldTime)
 			var dests []int
 			for bit, i := range honest {
 				if (a.C>>4)&(1<<uint(bit)) != 0 {
@@ -314,6 +341,9 @@ func c31Exec(ctx *vk.Ctx, c c31Case) error {
 		return fmt.Errorf("in the synchronous suffix: %v", err)
 	}
 	if !ok && c31AbandonedCommit(net, from) && ctx.Known("commit-abandoned-by-round-skip") {
+		ok = true
+	}
+	if !ok && c31StaleTime(net) && ctx.Known("byzantine-old-timestamp-halts-chain") {
 		ok = true
 	}
 	if !ok {
@@ -511,6 +541,9 @@ func c31DirectedExec(ctx *vk.Ctx, c c31Directed) error {
 		return fmt.Errorf("in the synchronous suffix: %v", err)
 	}
 	if !ok && c31AbandonedCommit(net, from) && ctx.Known("commit-abandoned-by-round-skip") {
+		ok = true
+	}
+	if !ok && c31StaleTime(net) && ctx.Known("byzantine-old-timestamp-halts-chain") {
 		ok = true
 	}
 	if !ok {
@@ -821,6 +854,9 @@ func c31RelockExec(ctx *vk.Ctx, c c31Relock) error {
 	if !ok && c31AbandonedCommit(net, from) && ctx.Known("commit-abandoned-by-round-skip") {
 		ok = true
 	}
+	if !ok && c31StaleTime(net) && ctx.Known("byzantine-old-timestamp-halts-chain") {
+		ok = true
+	}
 	if !ok {
 		if os.Getenv("VERIF_DEBUG") != "" {
 			for _, i := range net.Honest() {
@@ -828,6 +864,11 @@ func c31RelockExec(ctx *vk.Ctx, c c31Relock) error {
 				fmt.Printf("node %d store=%d: %s\n", i, net.Nodes[i].BS.Height(), rs.StringIndented("  "))
 				if tk, ok := net.Nodes[i].Ticker.Pending(); ok {
 					fmt.Printf("  pending timeout %+v\n", tk)
+				}
+				if rs.ProposalBlock != nil {
+					for _, j := range net.Honest() {
+						fmt.Printf("  ValidateBlock of node %d's proposal block by node %d: %v\n", i, j, net.Nodes[j].CS.GetState().ValidateBlock(rs.ProposalBlock))
+					}
 				}
 			}
 		}
